@@ -359,7 +359,7 @@ def sched_scenario(cfg, prefix):
     cap = cfg['cap']
 
     def main():
-        sem = SlidingWindowSemaphore(cap)
+        sem = (TaskSemaphore if cfg.get('kind') == 'task' else SlidingWindowSemaphore)(cap)
         state['sem'] = sem
         pre = []
         for tag, cnt in cfg['pre']:
@@ -394,7 +394,16 @@ def sched_scenario(cfg, prefix):
             ths.append(s.spawn(lambda ch=ch: releaser(ch), f'rel{i}'))
         for t in ths:
             s.point('join', t.name, enabled=lambda t=t: t.state == detsched.DONE)
-        state['final'] = sem.current_count()
+        # free capacity at quiescence, measured through the public API only
+        probes = []
+        try:
+            for _ in range(cap + 1):
+                probes.append(sem.acquire('a', False))
+        except NoResourcesAvailable:
+            pass
+        state['final'] = len(probes)
+        for tok in reversed(probes):
+            sem.release('a', tok)
 
     s.run(main)
     x = explore.Exec()
@@ -429,7 +438,13 @@ def sched_configs(tier):
     cfgs.append(dict(cap=2, pre=[('a', 2)], release_order=[1, 0], acquirers=['a']))
     cfgs.append(dict(cap=2, pre=[('a', 2)], release_order=[1, 0], acquirers=['a', 'a']))
     cfgs.append(dict(cap=2, pre=[('a', 1), ('b', 1)], release_order=[1, 0], acquirers=['a', 'b']))
+    # the plain task semaphore (default semaphore of the three stages and the upload tag)
+    cfgs.append(dict(kind='task', cap=1, pre=[('a', 1)], release_order=[0], acquirers=['a', 'a']))
+    cfgs.append(dict(kind='task', cap=2, pre=[('a', 2)], release_order=[0, 1], acquirers=['a', 'a']))
+    cfgs.append(dict(kind='task', cap=2, pre=[('a', 2)], release_order=[0, 1], acquirers=['a', 'a'], releasers=2))
     if tier == 'thorough':
+        cfgs.append(dict(kind='task', cap=2, pre=[('a', 2)], release_order=[0, 1], acquirers=['a', 'a', 'a']))
+        cfgs.append(dict(kind='task', cap=3, pre=[('a', 3)], release_order=[0, 1, 2], acquirers=['a', 'a', 'a'], releasers=2))
         cfgs.append(dict(cap=2, pre=[('a', 2)], release_order=[1, 0], acquirers=['a', 'b'], releasers=2))
         cfgs.append(dict(cap=1, pre=[('a', 1)], release_order=[0], acquirers=['a', 'a', 'a']))
         cfgs.append(dict(cap=2, pre=[('a', 2)], release_order=[1, 0], acquirers=['a', 'a', 'b']))
